@@ -346,7 +346,9 @@ pub fn gen_cell(rng: &mut Rng, b: &BuiltStack, with_insts: bool) -> RCell {
             // no overlap with earlier instances; exact abutment is allowed (rows of cells abut, mirrored pairs share an origin)
             let ok = cell.insts.iter().all(|o| bbox.0 >= o.bbox.2 || bbox.2 <= o.bbox.0 || bbox.1 >= o.bbox.3 || bbox.3 <= o.bbox.1);
             if ok {
-                cell.insts.push(RInst { name: format!("inst{}", k), sub, bbox, rh: rng.bool(), rv: rng.bool() });
+                // instance names need not be unique (nothing asks for it): in a third of the cells every instance is called inst0
+                let name = if (nx + ny) % 3 == 0 { "inst0".to_string() } else { format!("inst{}", k) };
+                cell.insts.push(RInst { name, sub, bbox, rh: rng.bool(), rv: rng.bool() });
             }
         }
     }
@@ -436,15 +438,23 @@ pub fn gen_cell(rng: &mut Rng, b: &BuiltStack, with_insts: bool) -> RCell {
                     }
                 }
             }
+            // net names are the caller's strings, carried verbatim: blanks at either end, inner blanks, other scripts
+            let net = match (k as i64 + nx) % 6 {
+                0 => format!("net{} ", k),
+                1 => format!(" net{}", k),
+                2 => format!("Net {}<{}>", k, k),
+                3 => format!("нетто{}", k),
+                _ => format!("net{}", k),
+            };
             // either orientation of the TrackCross
             if rng.bool() {
-                cell.assigns.push((format!("net{}", k), bot, tb, top, tt));
+                cell.assigns.push((net.clone(), bot, tb, top, tt));
             } else {
-                cell.assigns.push((format!("net{}", k), top, tt, bot, tb));
+                cell.assigns.push((net.clone(), top, tt, bot, tb));
             }
             if let Some((up, pu)) = stack_up {
                 used.insert((up, tb, pu));
-                cell.assigns.push((format!("net{}", k), top, tt, up, tb));
+                cell.assigns.push((net, top, tt, up, tb));
             }
         }
     }
@@ -657,7 +667,21 @@ fn expected(r: &RStack, cell: &RCell) -> Vec<OutRect> {
 
 pub fn build_lib(b: &BuiltStack, cell: &RCell) -> Library {
     let mut lib = Library::new("c08lib");
-    let subs: Vec<Ptr<Cell>> = cell.subs.iter().enumerate().map(|(i, s)| lib.cells.add(Layout::new(format!("sub{}", i), s.0, Outline::rect(s.1 as isize, s.2 as isize).unwrap()))).collect();
+    // sub-cells: layouts with rectangular outlines, or (one in three, when big enough) abstract-only cells with a two-step "tetris"
+    // outline of the same extent - an instance blocks its whole extent either way
+    let subs: Vec<Ptr<Cell>> = cell
+        .subs
+        .iter()
+        .enumerate()
+        .map(|(i, s)| {
+            if (i as i64 + cell.ny) % 3 == 1 && s.1 >= 2 && s.2 >= 2 {
+                let o = Outline::from_prim_pitches(vec![PrimPitches::x(s.1 as isize), PrimPitches::x((s.1 / 2) as isize)], vec![PrimPitches::y((s.2 / 2) as isize), PrimPitches::y(s.2 as isize)]).unwrap();
+                lib.cells.add(Cell::from(tet::abs::Abstract::new(format!("sub{}", i), s.0, o)))
+            } else {
+                lib.cells.add(Layout::new(format!("sub{}", i), s.0, Outline::rect(s.1 as isize, s.2 as isize).unwrap()))
+            }
+        })
+        .collect();
     let mut lay = Layout::new("top", cell.metals, Outline::rect(cell.nx as isize, cell.ny as isize).unwrap());
     for (k, i) in cell.insts.iter().enumerate() {
         let loc = (if i.rh { i.bbox.2 } else { i.bbox.0 }, if i.rv { i.bbox.3 } else { i.bbox.1 });
